@@ -311,6 +311,9 @@ func gcLocks(t *testing.T, backend sim.Backend) {
 		if r := cl.Runaway(); r != "" {
 			t.Fatalf("VERIF-INFRA: a call did not terminate (judged by C02 / C05): %s\n  case: %s", r, desc)
 		}
+		if sp := cl.StorePanic(); sp != "" {
+			t.Skip("void case: " + sp) // substrate defect (13.6): the case says nothing about the client
+		}
 		if infra != "" {
 			t.Fatalf("VERIF-INFRA: %s\n  case: %s", infra, desc)
 		}
